@@ -716,7 +716,7 @@ def op_open_w(w, op, mods):
             m["writers"] = m.get("writers", 0) + 1
             run.fault("reopen_for_append")
     w.handles[hname] = {"kind": kind, "mode": mode, "path": p, "obj": obj, "role": "w", "writes": 0,
-                        "last": "open"}
+                        "last": "open", "created": not exists}
     run.trans.add("%s|open_w|%s:%s|ok" % (st, kind, mode))
     run.event(op.get("c", 0), "open_w", p, "ok", "%s:%s" % (kind, mode))
 
@@ -1366,6 +1366,13 @@ def op_hread(w, op, mods):
         if w.prop == "C02":
             run.fail("rec.select.raises", feats, "selection %r through %s on %s (%d rows) raised %r"
                      % (_sel_str(sel), h["kind"] if h else entry, p, n, e))
+        elif w.prop in ("C01", "C03", "C04") and h is not None and h.get("role") == "w" and h.get("mode") == "r+" \
+                and not h.get("created"):
+            # (a handle that CREATED its file is a write-only handle in fact: reading through it is not promised)
+            # reading back through the writing (r+) handle is documented usage: it must not raise
+            run.fail("rec.readback.raises", _feat(m, kind=h["kind"], mode=h["mode"]),
+                     "reading back (%s) through the %s %r handle after %d writes on %s (%d rows) raised %r"
+                     % (_sel_str(sel), h["kind"], h["mode"], h.get("writes", 0), p, n, e))
         return
     if h is not None:
         h["reads"] = h.get("reads", 0) + 1
